@@ -68,6 +68,8 @@ func main() {}
 		nocalls  []string // providers it must not mention
 		async    bool     // the injector must be concurrent (context first, goroutines)
 		lib      string   // optional helper package <dir>/lib
+		lib2     string   // optional second helper package <dir>/lib2/lib (same package name as lib)
+		decl2    string   // optional second kessoku file of the same package (other.go), processed in the same invocation
 	}
 	std := "package main\n" + types_
 	cases := []tcase{
@@ -115,6 +117,23 @@ func main() {}
 		main:     "package main\n\nimport \"LIBPATH\"\n\nvar url = \"the user's own identifier called url\"\n\ntype App struct{}\n\nfunc NewApp(c *lib.Client) *App { _ = url; return &App{} }\nfunc main() {}\n",
 		decl:     "package main\n\nimport (\n\t\"github.com/mazrean/kessoku\"\n\n\t\"LIBPATH\"\n)\n\nvar _ = kessoku.Inject[*App](\"InitApp\", kessoku.Provide(lib.NewClient), kessoku.Provide(NewApp))\n",
 		injector: "InitApp", calls: []string{"lib.NewClient", "NewApp"}, lib: "package lib\n\nimport \"net/url\"\n\ntype Client struct{ u *url.URL }\n\nfunc NewClient(u *url.URL) *Client { return &Client{u} }\n"})
+	// two packages with the SAME name, neither imported by the user's file: the second import must be renamed and the
+	// second type spelled with the new name (spelled with the old one it would silently denote the first package's type)
+	cases = append(cases, tcase{name: "two_transitive_packages_with_one_name",
+		main:     "package main\n\nimport (\n\t\"LIBPATH\"\n)\n\ntype App struct{}\n\nfunc NewApp(c *lib.Client) *App { return &App{} }\nfunc main() {}\n",
+		decl:     "package main\n\nimport (\n\t\"github.com/mazrean/kessoku\"\n\n\t\"LIBPATH\"\n)\n\nvar _ = kessoku.Inject[*App](\"InitApp\", kessoku.Provide(lib.NewClient), kessoku.Provide(NewApp))\n",
+		injector: "InitApp", calls: []string{"lib.NewClient", "NewApp"},
+		lib:  "package lib\n\nimport (\n\ta \"LIBPATH/one/opts\"\n\tb \"LIBPATH/two/opts\"\n)\n\ntype Client struct{}\n\nfunc NewClient(x *a.Options, y *b.Options) *Client { return &Client{} }\n",
+		lib2: "package opts\n\ntype Options struct{}\n"})
+	// value providers, a struct expansion written by the user, an injector argument
+	cases = append(cases, tcase{name: "value_struct_expansion_and_argument", main: std,
+		decl:     "package main\n\nimport \"github.com/mazrean/kessoku\"\n\ntype Settings struct {\n\tName string\n\tPort int\n}\n\ntype Server struct{}\n\nfunc NewServer(name string, port int, m *Metrics) *Server { return &Server{} }\n\nvar _ = kessoku.Inject[*Server](\"InitServer\", kessoku.Value(&Settings{Name: \"x\", Port: 1}), kessoku.Struct[*Settings](), kessoku.Provide(NewServer))\n",
+		injector: "InitServer", calls: []string{"NewServer"}})
+	// two kessoku files of one package in one invocation: the names chosen for the second file must not clash with the first
+	cases = append(cases, tcase{name: "two_kessoku_files_in_one_invocation", main: std,
+		decl:     "package main\n\nimport \"github.com/mazrean/kessoku\"\n\nvar _ = kessoku.Inject[*App](\"InitApp\", kessoku.Provide(NewProdConfig), kessoku.Provide(NewApp))\n",
+		decl2:    "package main\n\nimport \"github.com/mazrean/kessoku\"\n\nvar _ = kessoku.Inject[*DB](\"InitDB\", kessoku.Provide(NewDevConfig), kessoku.Provide(NewDB))\n",
+		injector: "InitApp", calls: []string{"NewProdConfig", "NewApp"}})
 	evals := 0
 	var samples []any
 	for _, c := range cases {
@@ -129,8 +148,15 @@ func main() {}
 				libPath := "github.com/mazrean/kessoku/internal/kessoku/" + filepath.Base(dir) + "/lib"
 				c.main = strings.ReplaceAll(c.main, "LIBPATH", libPath)
 				c.decl = strings.ReplaceAll(c.decl, "LIBPATH", libPath)
+				c.lib = strings.ReplaceAll(c.lib, "LIBPATH", libPath)
 				_ = os.MkdirAll(filepath.Join(dir, "lib"), 0o755)
 				_ = os.WriteFile(filepath.Join(dir, "lib", "lib.go"), []byte(c.lib), 0o644)
+				if c.lib2 != "" {
+					for _, sub := range []string{"one", "two"} {
+						_ = os.MkdirAll(filepath.Join(dir, "lib", sub, "opts"), 0o755)
+						_ = os.WriteFile(filepath.Join(dir, "lib", sub, "opts", "opts.go"), []byte(c.lib2), 0o644)
+					}
+				}
 			}
 			fail := func(kind, detail string) {
 				res.Failures = append(res.Failures, kvcFailure{Name: kind + "[" + c.name + "]", Detail: detail, Input: map[string]any{"kessoku.go": c.decl, "main.go": c.main}})
@@ -140,7 +166,12 @@ func main() {}
 			_ = os.WriteFile(filepath.Join(dir, "main.go"), []byte(c.main), 0o644)
 			_ = os.WriteFile(src, []byte(c.decl), 0o644)
 			evals++
-			if err := NewProcessor().ProcessFiles([]string{src}); err != nil {
+			files := []string{src}
+			if c.decl2 != "" {
+				_ = os.WriteFile(filepath.Join(dir, "other.go"), []byte(c.decl2), 0o644)
+				files = append(files, filepath.Join(dir, "other.go"))
+			}
+			if err := NewProcessor().ProcessFiles(files); err != nil {
 				fail("accepted_declaration_refused", err.Error())
 				return
 			}
